@@ -253,6 +253,11 @@ func c12RunPrime(t *testing.T, r *verifmc.Run, a *c12Prime, extra func(f *bf.Fie
 		r.Distinct(cid)
 		f.Expect(r, "SetUint64", "-", cid, z, new(big.Int).SetUint64(nn), true, new(big.Int).SetUint64(nn))
 	}
+	// predicates against every one-bit neighbour in the Montgomery-domain words
+	f.CheckBitFlips(r, bf.BitFlip{Coords: 1, Bits: uint(64 * nl), P: P, R: bf.Pow2(uint(64 * nl)), Limit: P,
+		IsZero: func(x bf.Elem) bool { return a.isZero(x) == 1 }, IsEqual: func(x, y bf.Elem) bool { return a.isEqual(x, y) == 1 }},
+		[]bf.Operand{{V: new(big.Int), Name: "0"}, {V: big.NewInt(1), Name: "1"}, {V: new(big.Int).Sub(P, big.NewInt(1)), Name: "p-1"}, {V: bf.Pseudo("bls-pred", 0, P), Name: "pseudo0"}, {V: bf.Pseudo("bls-pred", 1, P), Name: "pseudo1"}})
+	r.RequireCounter(a.name+".predicates.one-bit-neighbours", int64(4*(P.BitLen()-1)))
 	if extra != nil {
 		extra(f, all, small)
 	}
